@@ -19,7 +19,7 @@ func init() {
 			"A branch that pairs the element only if a further condition holds and has no else (found and fixed: an addition that matched several deletions of another mode vanished) is a path without consumption. " +
 			"(used-mark-implies-pairing) once a change is entered into a used-set (which makes the leftover loops skip it) it is paired or appended on every path to the end of the iteration; " +
 			"(result-is-union) detect returns a list built from all three of added, deleted and modified; (both-advance-only-on-equal-paths) merkletrie.DiffTreeContext advances both of its iterators together only across the fact from.Compare(to) == 0 " +
-			"and enters the same-name handler from the equal clause of that comparison only (found and fixed: a skip-worktree entry was matched by base name and swallowed an unrelated node). Not decided: the rest of merkletrie.DiffTree, similarity scores, which pairs are chosen.",
+			"and enters the same-name handler from the equal clause of that comparison only (found and fixed: a skip-worktree entry was matched by base name and swallowed an unrelated node); (sibling-order-is-path-order, shared with C27) the iterators' sibling order (frame.byName.Less) and DiffTree's alignment order (noder.Path.Compare) both compare the plain Name() only. Not decided: the rest of merkletrie.DiffTree, similarity scores, which pairs are chosen.",
 		Assumptions: []string{},
 		Run:         runC44,
 	})
@@ -267,6 +267,7 @@ func runC44(c *Ctx) {
 	// (default / 0 clause). Matching by base name lets a skipped entry a/z swallow an unrelated top-level z.
 	checkBothAdvanceOnEqualPaths(c, "both-advance-only-on-equal-paths")
 	c.Floor("both-advance-only-on-equal-paths", 3)
+	checkSiblingOrder(c, "sibling-order-is-path-order")
 
 	const r2 = "result-is-union"
 	if det := c.MustFunc(r2, objShort+".(*renameDetector).detect"); det != nil {
